@@ -199,8 +199,48 @@ pub fn bbop(op: &str, a: u64, b: u64) -> String {
     )
 }
 
+/// every way of consuming the iterator must agree with repeated `next()`
+fn bb_adaptors_agree(a: u64) -> Option<&'static str> {
+    let mut it = bb(a);
+    let mut l = Vec::new();
+    while let Some(s) = it.next() {
+        l.push(s);
+        if l.len() > 64 { return Some("next-does-not-terminate"); }
+    }
+    if it.next().is_some() { return Some("next-after-none"); }
+    let n = l.len();
+    for k in 0..(n + 2) {
+        if bb(a).nth(k) != l.get(k).cloned() { return Some("nth"); }
+        let sk: Vec<_> = bb(a).skip(k).collect();
+        if sk[..] != l[k.min(n)..] { return Some("skip"); }
+        let tk: Vec<_> = bb(a).take(k).collect();
+        if tk[..] != l[..k.min(n)] { return Some("take"); }
+    }
+    for st in 1..4usize {
+        let sb: Vec<_> = bb(a).step_by(st).collect();
+        let ex: Vec<_> = l.iter().cloned().step_by(st).collect();
+        if sb != ex { return Some("step_by"); }
+    }
+    if bb(a).count() != n { return Some("count"); }
+    if bb(a).last() != l.last().cloned() { return Some("last"); }
+    if bb(a).min() != l.iter().cloned().min() { return Some("min"); }
+    if bb(a).max() != l.iter().cloned().max() { return Some("max"); }
+    let (lo, hi) = bb(a).size_hint();
+    if lo > n || hi.map(|h| h < n).unwrap_or(false) { return Some("size_hint"); }
+    let fl: Vec<_> = bb(a).fold(Vec::new(), |mut v, s| { v.push(s); v });
+    if fl != l { return Some("fold"); }
+    let mut via_for = Vec::new();
+    for s in bb(a) { via_for.push(s); }
+    if via_for != l { return Some("for"); }
+    if bb(a).position(|s| Some(s) == l.last().cloned()) != if n == 0 { None } else { Some(n - 1) } { return Some("position"); }
+    None
+}
+
 pub fn bbiter(a: u64) -> String {
     let r = guard(|| {
+        if let Some(which) = bb_adaptors_agree(a) {
+            return format!("DIFF:{}", which);
+        }
         let v: Vec<String> = bb(a).map(|s| s.to_index().to_string()).collect();
         if v.is_empty() {
             "-".to_string()
